@@ -7,6 +7,12 @@ Each change is applied in a scratch worktree of /repo (outside /repo and /verif)
 Writes seeded/RESULTS.json."""
 import json, os, subprocess, sys, tempfile, shutil, concurrent.futures
 ROOT = os.path.dirname(os.path.dirname(os.path.abspath(__file__)))
+import atexit as _ae, shutil as _sh, tempfile as _tf
+# private copy of the verifier, so that a rebuild of bin/govc during a long run cannot mix engines
+GOVC = os.environ.get("GOVC_BIN")
+if not GOVC:
+    _d = _tf.mkdtemp(prefix="govc-bin-"); GOVC = os.path.join(_d, "govc")
+    _sh.copy2(os.path.join(ROOT, "bin", "govc"), GOVC); _ae.register(lambda: _sh.rmtree(_d, ignore_errors=True))
 ENV = dict(os.environ, GOFLAGS="-mod=mod", GOPROXY="off", GOSUMDB="off", GOTOOLCHAIN="local")
 args = sys.argv[1:]
 confirm = "-confirm" in args; allprops = "-all" in args
@@ -39,7 +45,7 @@ def run(sid):
         for p in props:
             if p not in claimed:
                 res["checks"][p] = "not claimed"; continue
-            r = sh([os.path.join(ROOT, "bin/govc"), "check", "-repo", wt, "-out", out, "-property", p], timeout=1800)
+            r = sh([GOVC, "check", "-repo", wt, "-out", out, "-property", p], timeout=1800)
             viol = [l for l in r.stdout.splitlines() if l.startswith("VIOLATION")]
             if r.returncode == 1 and viol:
                 res["checks"][p] = "DETECTED: " + "; ".join(os.path.basename(v.split("replay=")[1].split()[0]) + (" (replayed)" if "no-failing-input-found" not in v else "") for v in viol[:4])
